@@ -95,10 +95,15 @@ macro_rules! c07_pareto {
                 vassert!(d.inv_neg_shape == neg_inv, "Pareto: inv_neg_shape is not -1/shape");
                 let x: $f = d.sample(&mut rng);
                 vassert!(rng.pos == 1, "Pareto: number of words consumed depends on the parameters");
-                vassert!(flog_n() == 1, "Pareto: expected exactly one power");
-                let (b, e, g) = flog_get(0);
-                vassert!(b == $oc(w0) as f64, "Pareto: base of the power is not the OpenClosed01 draw");
-                vassert!(e == neg_inv as f64, "Pareto: exponent is not -1/shape");
+                let g: f64 = if native() {
+                    num_traits::Float::powf($oc(w0), neg_inv) as f64
+                } else {
+                    vassert!(flog_n() == 1, "Pareto: expected exactly one power");
+                    let (b, e, g) = flog_get(0);
+                    vassert!(b == $oc(w0) as f64, "Pareto: base of the power is not the OpenClosed01 draw");
+                    vassert!(e == neg_inv as f64, "Pareto: exponent is not -1/shape");
+                    g
+                };
                 vassert!(biteq64(x as f64, (scale * (g as $f)) as f64), "Pareto: sample is not scale * g");
                 kani::cover!(g == 2.0, "g = 2");
             }
